@@ -36,6 +36,21 @@ CHECKS = {
         "(a) arbitrary multisets (empty, singleton, ties, > 2^64 ps), sparse allocation tallies and counter values are injected into a real BenchContext and compute_stats / the row painter are judged by an independent reference in integer arithmetic that accepts every sample attaining a tied duration; (b) runs through the real loop, where the samples are re-derived from the trace so the sample -> index -> alloc/counter association is checked end to end. Found and fixed a division by zero / NaN with zero samples. Exploration only.",
         LOOP_NOTE + " Float figures compared with relative tolerance 1e-12.",
         "DESIGN.md section 4, C05"),
+    "C06": (
+        "generated schedules on the real pool under a deterministic scheduler (property-based testing of schedules + bounded enumeration): once-per-index, vector-clock happens-before, liveness registry of the task block, result-vector model, spawn accounting",
+        "divan's real ThreadPool runs generated histories of broadcasts/par_extends (varying n, panicking subsets, payloads whose destructor panics, reused/cleared result vectors, broadcasts issued from another thread) under a std-only deterministic scheduler in which the schedule is a generated, shrinkable input (sparse PCT-style preemptions, dense random choices, spurious park wake-ups); for the histories [1], [2], [1,1] every choice vector with at most 2 (thorough: 3) non-zero entries in the first L positions is enumerated. Judged: each index called once on the right, distinct, reused threads; return after and happens-after every call (vector clocks honouring the Ordering arguments); per-index results; no operation on a dropped shim object of the task block; threads spawned only when needed. Exploration (bounded-exhaustive for the named sub-space), no proof.",
+        "Trusts the scheduler and std shim in /repo/src/verif (documented semantics of park/unpark, Mutex, rendezvous channel, spawn; sequentially consistent interleavings; weak memory only as missing release/acquire edges).",
+        "DESIGN.md sections 3 and 4, C06"),
+    "C07": (
+        "generated schedules on the real pool under a deterministic scheduler: deadlock detector (no runnable thread while some thread is unfinished), termination, worker-exit accounting after the pool is dropped",
+        "Same driver as C06 with longer histories (up to 8 broadcasts, n up to 5, growing and shrinking), panicking subsets, spurious wake-ups, stale unpark tokens pending for the caller, broadcasts from a second caller thread, and the pool dropped at the end. The scheduler proves a deadlock (never a wall-clock timeout); every execution must complete all broadcasts with right results and all spawned workers must exit. Liveness for the explored finite schedules only.",
+        "Same trust base as C06. A payload whose destructor panics on a worker aborts by design and is not generated for worker indices.",
+        "DESIGN.md sections 3 and 4, C07"),
+    "C08": (
+        "generated schedules over the real sample loop on T in 2..4 threads under the deterministic scheduler: global phase order per round from the serialised event log, per-thread tally model, generated panic plans",
+        "The real bench loop (pool + per-round barrier) runs under the scheduler with generated schedules, explicit yields inside the instrumented closures, per-thread distinguishable allocation scripts and panic plans (one thread or all, any phase, any round). Per round: every thread's last generation/count and tally clear precede every start timestamp; every end timestamp precedes every drop; each sample's tally is its own thread's in-window operations; a fired panic must end in a panic on the caller without a deadlock state. One genuine defect is listed as a known finding (strict-subset panic before the end barrier hangs).",
+        "Same trust base as C06 plus the loop hooks (scripted clock, tally-clear observer).",
+        "DESIGN.md sections 3 and 4, C08"),
     "C09": (
         "property-based testing: scripted mock inner GlobalAlloc (call log = request log, returns identical), global-allocator watch for re-entry/allocation, fresh-thread and TLS-destructor contexts",
         "Generated request sequences with valid layouts up to isize::MAX, arbitrary pointers and scripted returns incl. null are issued through AllocProfiler<Mock>; the mock's log must equal the request sequence, every return must be the scripted one, and no call may reach the process allocator from inside a wrapper call; also on a thread whose first action is the call and inside a thread-local destructor. Exploration only.",
